@@ -7,7 +7,7 @@ props = {json.loads(l)['id']: json.loads(l) for l in open('/verif/properties.jso
 head = subprocess.run(['git', '-C', '/repo', 'rev-parse', '--short', 'HEAD'], capture_output=True, text=True).stdout.strip()
 items = []
 for pid in sorted(props):
-    for src, m, tag in [(pid, 'm1', 'm1'), (pid, 'm2', 'm2'), (pid + 'b', 'm1', 'm3'), (pid + 'R2', 'm1', 'm4'), (pid + 'R3', 'm1', 'm5'), (pid + 'R4', 'm1', 'm6'), (pid + 'R5', 'm1', 'm7'), (pid + 'R6', 'm1', 'm8'), (pid + 'R7', 'm1', 'm9')]:
+    for src, m, tag in [(pid, 'm1', 'm1'), (pid, 'm2', 'm2'), (pid + 'b', 'm1', 'm3'), (pid + 'R2', 'm1', 'm4'), (pid + 'R3', 'm1', 'm5'), (pid + 'R4', 'm1', 'm6'), (pid + 'R5', 'm1', 'm7'), (pid + 'R6', 'm1', 'm8'), (pid + 'R7', 'm1', 'm9'), (pid + 'R8', 'm1', 'm10')]:
         d = f'/tmp/seed_out/{src}/{m}'
         if os.path.isdir(d): items.append((pid, src, m, tag, d))
 for pid, src, m, tag, d in items:
